@@ -201,6 +201,13 @@ impl Verify for ChannelAssignment {
 impl Verify for FrameHeader {
     fn verify(&self) -> Result<(), VerifyError> {
         verify_block_size!("block_size", self.block_size())?;
+        if self.is_variable_blocking() {
+            verify_range!(
+                "start_sample_number",
+                self.start_sample_number(),
+                ..(1u64 << 36)
+            )?;
+        }
 
         self.channel_assignment()
             .verify()
